@@ -112,3 +112,56 @@ proof fn lemma_chain_keyed_aux(ws: Seq<Scalar>, sts: Seq<RngSt>, k: nat)
 {
     if k > 0 { lemma_chain_keyed_aux(ws, sts, (k - 1) as nat); lemma_rnz_key_preserved(sts[k - 1], ws[k - 1], sts[k as int]); }
 }
+// C10 / C03 / C01 (verifier side): the only reasons verify() may refuse a batch. Nothing here mentions the recovery seeds or the mode:
+// apart from transcript rejections and the final equation (both ProofError::VerificationFailed) a refusal is a function of the shapes alone.
+pub open spec fn member_well_shaped(pr: RangeProof<P>, st: RangeStatement<P>, n: usize) -> bool {
+    proof_shape_ok(pr, st, n) && proof_points_decode(pr)
+}
+pub open spec fn all_well_shaped(st: Seq<RangeStatement<P>>, pr: Seq<RangeProof<P>>) -> bool {
+    forall|p: int| 0 <= p < pr.len() ==> member_well_shaped(#[trigger] pr[p], st[p], st[0].generators.bp_gens.gens_capacity)
+}
+// 2^k == v with v below 2^39 bounds k (used to show that the size-overflow exits are unreachable for well-shaped members)
+pub proof fn lemma_rounds_bound(k: nat, v: int)
+    requires vstd::arithmetic::power2::pow2(k) == v, v <= 0x80_0000_0000
+    ensures k <= 39
+{
+    if k >= 40 {
+        vstd::arithmetic::power2::lemma2_to64_rest();
+        vstd::arithmetic::power2::lemma_pow2_strictly_increases(39, k);
+    }
+}
+// consistency and well-shapedness of a batch are inherited by every contiguous part of it (the chunks verify_batch hands to verify)
+pub proof fn lemma_consistent_sub(st: Seq<RangeStatement<P>>, pr: Seq<RangeProof<P>>, lo: int, hi: int)
+    requires batch_consistent(st, pr), 0 <= lo < hi <= st.len()
+    ensures batch_consistent(st.subrange(lo, hi), pr.subrange(lo, hi))
+{
+    let s2 = st.subrange(lo, hi); let p2 = pr.subrange(lo, hi);
+    assert(s2[0] == st[lo] && p2[0] == pr[lo]);
+    assert(pr[lo].d1@.len() == st[0].generators.pc_gens.extension_degree as usize);
+    assert forall|i: int| 0 <= i < s2.len() implies {
+            &&& (#[trigger] p2[i]).d1@.len() == s2[0].generators.pc_gens.extension_degree as usize
+            &&& s2[i].generators.pc_gens.extension_degree == s2[0].generators.pc_gens.extension_degree
+            &&& s2[i].generators.bp_gens.gens_capacity == s2[0].generators.bp_gens.gens_capacity
+            &&& s2[i].generators.pc_gens.g_base_vec@ == s2[0].generators.pc_gens.g_base_vec@
+            &&& s2[i].generators.pc_gens.h_base == s2[0].generators.pc_gens.h_base
+        } by { assert(p2[i] == pr[lo + i] && s2[i] == st[lo + i]); }
+    assert forall|i: int, q: int| 0 <= i < s2.len() && 0 <= q < s2[i].minimum_value_promises@.len() implies
+            #[trigger] promise_ok(s2[i].minimum_value_promises@[q], s2[0].generators.bp_gens.gens_capacity) by {
+        assert(s2[i] == st[lo + i]);
+        assert(promise_ok(st[lo + i].minimum_value_promises@[q], st[0].generators.bp_gens.gens_capacity));
+    }
+    assert forall|i: int, j: int| 0 <= i < s2.len() && 0 <= j < s2.len() implies gens_prefix_agree((#[trigger] s2[i]).generators, (#[trigger] s2[j]).generators) by {
+        assert(s2[i] == st[lo + i] && s2[j] == st[lo + j]);
+    }
+}
+pub proof fn lemma_shaped_sub(st: Seq<RangeStatement<P>>, pr: Seq<RangeProof<P>>, lo: int, hi: int)
+    requires batch_consistent(st, pr), all_well_shaped(st, pr), 0 <= lo < hi <= st.len()
+    ensures all_well_shaped(st.subrange(lo, hi), pr.subrange(lo, hi))
+{
+    let s2 = st.subrange(lo, hi); let p2 = pr.subrange(lo, hi);
+    assert(s2[0] == st[lo] && p2[0] == pr[lo]);
+    assert forall|p: int| 0 <= p < p2.len() implies member_well_shaped(#[trigger] p2[p], s2[p], s2[0].generators.bp_gens.gens_capacity) by {
+        assert(p2[p] == pr[lo + p] && s2[p] == st[lo + p]);
+        assert(member_well_shaped(pr[lo + p], st[lo + p], st[0].generators.bp_gens.gens_capacity));
+    }
+}
